@@ -95,7 +95,18 @@ func (p *Prog) JS() string {
 	case "null":
 		sb.WriteString("return null;\n")
 	case "nonobject":
-		sb.WriteString("return 42;\n")
+		// nothing but a plain object (or null) is a set of bindings: not a number, and not a value the runtime
+		// exports as some Go object that would print as {}
+		switch len(p.Ops) % 4 {
+		case 0:
+			sb.WriteString("return 42;\n")
+		case 1:
+			sb.WriteString("return new ArrayBuffer(8);\n")
+		case 2:
+			sb.WriteString("return new Proxy({}, {});\n")
+		default:
+			sb.WriteString("return Promise.resolve({});\n")
+		}
 	case "throw":
 		if len(p.Ops)%3 == 1 {
 			// a long diagnostic with text that is not ASCII (error texts are one token in the model)
